@@ -153,7 +153,7 @@ PROPS['C14'] = dict(
 )
 PROPS['C15'] = dict(
     family='line', needs_scrut_bin=True,
-    theorems=['C15_skip_detected', 'C15_skip_all', 'C15_only_then', 'C15_skip_has_cause', 'C15_script_skip_detected', 'C15_script_skip_has_cause', 'C15_script_skip_read_from_dividers', 'C15_script_left_with_skip_code', 'C15_default_code'],
+    theorems=['C15_skip_detected', 'C15_skip_all', 'C15_only_then', 'C15_skip_has_cause', 'C15_script_skip_detected', 'C15_script_skip_has_cause', 'C15_script_skip_read_from_dividers', 'C15_script_left_with_skip_code', 'C15_script_bytes_refine_state_machine', 'C15_default_code'],
     streams=lambda tier: [exec_stream(tier), cli_stream(tier),
                           dict(name='divider-skip(fake shell)', harness=['divider', str({'quick': 1600, 'extended': 8000, 'thorough': 60000}[tier]), '{seed}', '{shard}', '{nshards}'], driver='skipdiv', timeout=3000)],
     spec_kinds=['SPEC:C15'], corr_kinds=['DIFF:skipcode', 'DIFF:exec', 'DIFF:results'],
